@@ -464,6 +464,81 @@ func likeFamily() *core.Family {
 	}
 }
 
+// foreign JSON documents: valid policy JSON that the encoder itself never writes
+// (adjacent wildcards, empty and split pattern literals, ...). Whatever policy such a
+// document decodes to, that policy must be stable: JSON -> text -> JSON and a JSON
+// round trip give the same policy, and all of them authorize identically.
+func foreignFamily() *core.Family {
+	elems := []string{`"Wildcard"`, `{"Literal":"a"}`, `{"Literal":""}`, `{"Literal":"*"}`}
+	var pats [][]string
+	var rec func(cur []string)
+	rec = func(cur []string) {
+		pats = append(pats, append([]string{}, cur...))
+		if len(cur) == 4 {
+			return
+		}
+		for _, e := range elems {
+			rec(append(cur, e))
+		}
+	}
+	rec(nil)
+	subjects := []string{"", "a", "aa", "*", "a*", "*a", "b", "ab"}
+	return &core.Family{
+		Name: "foreign-json-like-patterns",
+		Desc: fmt.Sprintf("hand-written policy JSON: every like-pattern array of 0..4 elements over {Wildcard, Literal a, Literal \"\", Literal *} (%d arrays, most of them spellings the encoder never produces) x %d subject strings: the decoded policy, its JSON round trip and its text round trip are the same policy and decide identically", len(pats), len(subjects)),
+		N:    int64(len(pats)),
+		Run: func(t *core.T, i int64) {
+			pat := "[" + strings.Join(pats[i], ",") + "]"
+			for _, subj := range subjects {
+				sj, _ := json.Marshal(subj)
+				doc := `{"effect":"permit","principal":{"op":"All"},"action":{"op":"All"},"resource":{"op":"All"},"conditions":[{"kind":"when","body":{"like":{"left":{"Value":` + string(sj) + `},"pattern":` + pat + `}}}]}`
+				var p1 cedar.Policy
+				var err error
+				if t.Protect("unmarshal-json:foreign-like", doc, func() { err = p1.UnmarshalJSON([]byte(doc)) }) {
+					return
+				}
+				if err != nil {
+					continue // not accepted: nothing to compare
+				}
+				t.Nontrivial()
+				c1 := Canon((*xast.Policy)(p1.AST()))
+				a1 := authz(&p1)
+				js, err := p1.MarshalJSON()
+				if err != nil {
+					t.Fail("marshal-json-error:foreign-like", doc, "encodes", err.Error())
+					continue
+				}
+				var p2 cedar.Policy
+				if err := p2.UnmarshalJSON(js); err != nil {
+					t.Fail("json-does-not-decode:foreign-like", doc+"  =>  "+string(js), "decodes", err.Error())
+				} else {
+					if c2 := Canon((*xast.Policy)(p2.AST())); c2 != c1 {
+						t.Fail("json-roundtrip-changes-ast:foreign-like", doc+"  =>  "+string(js), c1, c2)
+					}
+					if a2 := authz(&p2); a2 != a1 {
+						t.Fail("json-roundtrip-changes-authorization:foreign-like", doc+"  =>  "+string(js), a1, a2)
+					}
+				}
+				txt := p1.MarshalCedar()
+				var p3 cedar.Policy
+				if err := p3.UnmarshalCedar(txt); err != nil {
+					t.Fail("text-of-json-decoded-does-not-parse:foreign-like", doc+"  =>  "+string(txt), "parses", err.Error())
+					continue
+				}
+				if c3 := Canon((*xast.Policy)(p3.AST())); c3 != c1 {
+					t.Fail("json-to-text-changes-ast:foreign-like", doc+"  =>  "+string(txt), c1, c3)
+				}
+				if a3 := authz(&p3); a3 != a1 {
+					t.Fail("text-encoding-changes-authorization:foreign-like", doc+"  =>  "+string(txt), a1, a3)
+				}
+				t.AddTrans(3)
+			}
+			t.AddStates(1)
+			t.Sample(pat)
+		},
+	}
+}
+
 func heads() *core.Family {
 	e1, e2 := [2]string{"U", "a"}, [2]string{"NS::G", "g \"q\"\n "}
 	prs := []Scope{{Kind: ScAll}, {Kind: ScEq, Ent: e1}, {Kind: ScIn, Ent: e2}, {Kind: ScIs, Type: "NS::U"}, {Kind: ScIsIn, Type: "U", Ent: e2}}
@@ -567,9 +642,9 @@ func Check() *core.Check {
 			full := gen.Leaves(gen.V)
 			small := gen.Leaves(gen.W)
 			if tier == "thorough" {
-				return []*core.Family{heads(), policySets(), likeFamily(), depth1(full), depth2(small[:10])}
+				return []*core.Family{heads(), policySets(), likeFamily(), foreignFamily(), depth1(full), depth2(small[:10])}
 			}
-			return []*core.Family{heads(), policySets(), likeFamily(), depth1(full), depth2([]*Expr{L(Bool(true)), L(Long(-1)), Var("principal"), L(Decimal(-1))})}
+			return []*core.Family{heads(), policySets(), likeFamily(), foreignFamily(), depth1(full), depth2([]*Expr{L(Bool(true)), L(Long(-1)), Var("principal"), L(Decimal(-1))})}
 		},
 	}
 }
